@@ -296,3 +296,129 @@ pub fn header_map(h: &[(String, String)]) -> BTreeMap<String, Vec<String>> {
     }
     m
 }
+
+// ---------------------------------------------------------------- response model
+
+pub const STATUS_CODES: [u16; 39] = [
+    100, 101, 200, 201, 202, 203, 204, 205, 206, 300, 301, 302, 303, 304, 305, 307, 400, 401, 403, 404, 405, 406, 407, 408, 409, 410, 411, 412, 413, 414, 415, 416, 417, 500, 501, 502, 503, 504, 505,
+];
+
+#[derive(Clone, Debug, PartialEq, serde::Serialize, serde::Deserialize)]
+pub struct RespModel {
+    pub version: String,
+    pub status: u16,
+    /// headers other than Content-Length / Transfer-Encoding
+    pub headers: Vec<(String, String)>,
+    #[serde(with = "crate::common::bytes_as_string")]
+    pub body: Vec<u8>,
+    /// "cl" | "chunked" | "close" | "none"
+    pub framing: String,
+    /// chunk sizes (sum <= body len; remainder is a last chunk)
+    #[serde(default)]
+    pub chunks: Vec<usize>,
+    #[serde(default)]
+    pub hex_upper: bool,
+}
+
+impl RespModel {
+    pub fn effective_framing(&self) -> &str {
+        if no_body_status(self.status) {
+            "none"
+        } else {
+            self.framing.as_str()
+        }
+    }
+    pub fn effective_body(&self) -> &[u8] {
+        if self.effective_framing() == "none" {
+            &[]
+        } else {
+            &self.body
+        }
+    }
+    pub fn render(&self) -> Vec<u8> {
+        let reason = reason_phrase(self.status).unwrap_or("Unknown");
+        let mut b = format!("{} {} {}\r\n", self.version, self.status, reason).into_bytes();
+        for (k, v) in &self.headers {
+            b.extend(format!("{}: {}\r\n", k, v).bytes());
+        }
+        match self.effective_framing() {
+            "cl" => {
+                b.extend(format!("Content-Length: {}\r\n\r\n", self.body.len()).bytes());
+                b.extend(&self.body);
+            }
+            "chunked" => {
+                b.extend(b"Transfer-Encoding: chunked\r\n\r\n");
+                let mut pos = 0;
+                let mut sizes: Vec<usize> = Vec::new();
+                for &c in &self.chunks {
+                    if c == 0 || pos + c > self.body.len() {
+                        continue;
+                    }
+                    sizes.push(c);
+                    pos += c;
+                }
+                if pos < self.body.len() {
+                    sizes.push(self.body.len() - pos);
+                }
+                let mut p = 0;
+                for s in sizes {
+                    let hex = if self.hex_upper { format!("{:X}", s) } else { format!("{:x}", s) };
+                    b.extend(hex.bytes());
+                    b.extend(b"\r\n");
+                    b.extend(&self.body[p..p + s]);
+                    b.extend(b"\r\n");
+                    p += s;
+                }
+                b.extend(b"0\r\n\r\n");
+            }
+            "close" => {
+                b.extend(b"\r\n");
+                b.extend(&self.body);
+            }
+            _ => b.extend(b"\r\n"),
+        }
+        b
+    }
+    /// Headers a faithful recipient reports (chunked re-expressed as Content-Length).
+    pub fn expected_headers(&self) -> Vec<(String, String)> {
+        let mut h: Vec<(String, String)> = self.headers.iter().map(|(k, v)| (k.to_ascii_lowercase(), v.clone())).collect();
+        match self.effective_framing() {
+            "cl" | "chunked" => h.push(("content-length".into(), format!("{}", self.body.len()))),
+            _ => {}
+        }
+        h.sort();
+        h
+    }
+}
+
+pub fn gen_resp_model(rng: &mut humsim::rng::Rng, max_body: usize) -> RespModel {
+    const NAMES: [&str; 10] = ["Server", "Content-Type", "Cache-Control", "X-Custom", "x-custom", "ETag", "Via", "Set-Cookie", "Set-Cookie", "Location"];
+    let status = STATUS_CODES[rng.usize_below(STATUS_CODES.len())];
+    let nh = rng.range(0, 8) as usize;
+    let mut headers = Vec::new();
+    for _ in 0..nh {
+        let name = NAMES[rng.usize_below(NAMES.len())];
+        let vlen = rng.range(1, 24) as usize;
+        let mut v: String = (0..vlen).map(|_| (0x21 + rng.below(0x5e) as u8) as char).collect();
+        if rng.chance(1, 6) {
+            v.push_str(" \u{e9}x");
+        }
+        headers.push((name.to_string(), v.trim().to_string()));
+    }
+    let blen = match rng.below(8) {
+        0 => 0,
+        1..=5 => rng.range(1, 100) as usize,
+        6 => rng.range(8000, 9000) as usize,
+        _ => rng.usize_below(max_body.max(1)),
+    };
+    let body = rng.bytes(blen);
+    let framing = ["cl", "cl", "chunked", "chunked", "close", "none"][rng.usize_below(6)].to_string();
+    let mut chunks = Vec::new();
+    if framing == "chunked" && blen > 0 {
+        let k = rng.range(1, 6);
+        for _ in 0..k {
+            chunks.push(1 + rng.usize_below(blen));
+        }
+    }
+    RespModel { version: if rng.chance(1, 5) { "HTTP/1.0".into() } else { "HTTP/1.1".into() }, status, headers, body: if framing == "none" { vec![] } else { body }, framing, chunks, hex_upper: rng.chance(1, 2) }
+}
